@@ -173,6 +173,7 @@ class Execution:
             if p:
                 fp, pg = p
         self.rec.inv = inv
+        self.rec.fn_running.clear()     # functions of an earlier (crashed) invocation died with its process
         ev, split = self.backend.start_invocation(fp, pg)
         r.split = split
         r.ops_at_start = {oid: rec["Status"] for oid, rec in self.backend.ops.items() if rec["Type"] != "EXECUTION"}
